@@ -163,6 +163,14 @@ pub fn run(ctx: &mut Ctx) {
             }
             ctx.count("scenarios:with-dot-liquid-names");
         }
+        // a partial whose source is the empty text is a perfectly valid partial
+        if !sc.partials.is_empty() && r.chance(1, 6) {
+            let k = r.below(sc.partials.len());
+            sc.partials[k].1 = String::new();
+            let name = sc.partials[k].0.trim_end_matches(".liquid").to_string();
+            sc.main.push_str(&format!("[{{% include '{}' %}}{{% render '{name}' %}}]", sc.partials[k].0));
+            ctx.count("scenarios:with-empty-partial");
+        }
         let renders = 1 + r.below(3);
         ctx.set_progress(&replay_json(&sc).to_string());
         let uses_partials = sc.main.contains("include") || sc.main.contains("render");
